@@ -138,9 +138,9 @@ def facts_dir(repo=None):
             json.dump({"tree": th, "wall_s": round(time.time() - t0, 2), "repo": repo}, fh)
         shutil.rmtree(fdir, ignore_errors=True)
         os.replace(tmp, fdir)
-        # prune old fact sets (keep the 6 newest)
+        # prune old fact sets (keep the 24 newest: parallel selftest workers each hold one)
         base = os.path.join(CACHE, "facts")
         ds = sorted((os.path.getmtime(os.path.join(base, d)), d) for d in os.listdir(base) if os.path.isdir(os.path.join(base, d)))
-        for _, d in ds[:-6]:
+        for _, d in ds[:-24]:
             shutil.rmtree(os.path.join(base, d), ignore_errors=True)
     return fdir
